@@ -806,10 +806,12 @@ def c18_jobs(tier):
     if tier == "quick":
         return [j("small-len6", mode="small", maxlen=6), j("perm6", mode="perm", maxlen=6), j("big", mode="big"),
                 j("ts-len4", mode="ts", maxlen=4),
+                j("small-len6-huge", mode="small", maxlen=6, huge=1),
                 dict(j("small-len5-fptrap", mode="small", maxlen=5, fptrap=1), cfg="rel"),
                 dict(j("ts-len4-fptrap", mode="ts", maxlen=4, fptrap=1), cfg="rel")]
     return [j("small-len8", mode="small", maxlen=8), j("perm8", mode="perm", maxlen=8), j("big", mode="big"),
             j("ts-len6", mode="ts", maxlen=6),
+            j("small-len8-huge", mode="small", maxlen=8, huge=1),
             dict(j("small-len7-fptrap", mode="small", maxlen=7, fptrap=1), cfg="rel"),
             dict(j("big-fptrap", mode="big", fptrap=1), cfg="rel"),
             dict(j("ts-len5-fptrap", mode="ts", maxlen=5, fptrap=1), cfg="rel")]
